@@ -283,6 +283,7 @@ func genLComp(r *Rng) *LComp {
 	}
 	return c
 }
+
 type LColumn struct {
 	Gutter bool
 	Css    bool
